@@ -115,10 +115,14 @@ let handlers : (string * (string list -> unit)) list ref =
   ref [ ("bloom", cmd_bloom); ("cfg", (fun _ -> emit "cfg")); ("autoquiesce", (fun _ -> emit "autoquiesce")) ]
 
 
+let images : (int, n list) Hashtbl.t = Hashtbl.create 8
+let outs : (int, n list) Hashtbl.t = Hashtbl.create 8
+
 (* ---------- storage (L3) ---------- *)
 let st : storage ref = ref init_storage
 let st_k = ref 4
 let st_cfg = ref { c_dup = true; c_maxrec = n_of_int 1000000; c_maxsize = n_of_int 1000000000 }
+let tainted_ref = ref false
 let st_lazy = ref false
 let st_validate = ref false
 
@@ -179,6 +183,7 @@ let cmd_cfg args =
       | ["maxsize"; v] -> st_cfg := { !st_cfg with c_maxsize = n_of_string v }
       | ["init"; v] -> st_lazy := (v = "lazy")
       | ["validate"; v] -> st_validate := (v = "1")
+      | ["nomodel"; "1"] -> tainted_ref := true
       | _ -> ()) args;
   emit "cfg"
 
@@ -241,6 +246,7 @@ let storage_handlers = [
           | b :: _ ->
             let bytes = blob_file_bytes (n_of_int !st_k) b.b_recs in
             let cut = List.filteri (fun i _ -> i < int_of_string n) bytes in
+            Hashtbl.replace images id cut;
             let r = blob_open_scan cut (n_of_int !st_k) !st_validate in
             spec_pending := (match r with
                 | ROk hs -> Printf.sprintf "sc served %d" (List.length hs)
@@ -379,8 +385,56 @@ let cmd_judge toks =
   emit (Printf.sprintf "judge harmless=%b header_synced=%b index_after_sync=%b" h a b)
 let () = handlers := ("judge", cmd_judge) :: ("trace", cmd_trace) :: (List.filter (fun (n, _) -> n <> "trace") !handlers)
 
+
+(* ---------- byte images of blob files for damage + offline tools (Blob/Scan.v Section Tools) ---------- *)
+let image_of id =
+  match Hashtbl.find_opt images id with
+  | Some b -> Some b
+  | None ->
+    let all = closed_blobs !st @ (match !st.s_active with Some b -> [b] | None -> []) in
+    (match List.filter (fun b -> int_of_n b.b_id = id) all with
+     | b :: _ -> let bytes = blob_file_bytes (n_of_int !st_k) b.b_recs in Hashtbl.replace images id bytes; Some bytes
+     | [] -> None)
+let meta_ok (m : n list) = if List.length m = 8 then List.for_all (fun x -> x = N0) m else true
+let cmd_flip = function
+  | ["blob"; id; pos; mask] ->
+    let id = int_of_string id and pos = int_of_string pos and mask = int_of_string ("0x" ^ mask) in
+    (match image_of id with
+     | Some b when pos < List.length b ->
+       Hashtbl.replace images id (List.mapi (fun i x -> if i = pos then n_of_int ((int_of_n x) lxor mask) else x) b); emit "flip ok"
+     | _ -> emit "flip absent")
+  | _ -> emit "*"
+let cmd_tool = function
+  | ["validate_blob"; id] ->
+    (match image_of (int_of_string id) with
+     | Some b -> emit ("tool validate_blob " ^ (if tool_validate_blob meta_ok b then "ok" else "Err"))
+     | None -> emit "tool validate_blob Err")
+  | ["recover"; id; _every; skip] ->
+    (match image_of (int_of_string id) with
+     | Some b ->
+       (match tool_recover meta_ok b (skip = "1") with
+        | Some o -> Hashtbl.replace outs (int_of_string id) o; emit (Printf.sprintf "tool recover ok %d" (List.length o))
+        | None -> emit "tool recover Err")
+     | None -> emit "tool recover Err")
+  | ["validate_out"; id] ->
+    (match Hashtbl.find_opt outs (int_of_string id) with
+     | Some b -> emit ("tool validate_out " ^ (if tool_validate_blob meta_ok b then "ok" else "Err"))
+     | None -> emit "tool validate_out Err")
+  | ["outhex"; id] ->
+    (match Hashtbl.find_opt outs (int_of_string id) with Some b -> emit ("tool outhex " ^ hex_of_bytes b) | None -> emit "tool outhex absent")
+  | ["migrate"; id; _target] ->
+    (* current-version blob: migration is the re-serialising copy without skipping *)
+    (match image_of (int_of_string id) with
+     | Some b -> (match tool_recover meta_ok b false with
+         | Some o -> Hashtbl.replace outs (int_of_string id) o; emit "tool migrate ok"
+         | None -> emit "tool migrate Err")
+     | None -> emit "tool migrate Err")
+  | ["install"; _] -> emit "tool install ok"
+  | _ -> emit "*"
+let () = handlers := ("tool", cmd_tool) :: ("flip", cmd_flip) :: (List.filter (fun (n, _) -> n <> "flip") !handlers)
+
 (* after the script damages a file byte-wise the L3 model no longer predicts outcomes: wildcard *)
-let tainted = ref false
+let tainted = tainted_ref
 let run_script path outpath =
   let ic = open_in path in
   (try
@@ -390,7 +444,14 @@ let run_script path outpath =
          let toks = List.filter (fun s -> s <> "") (String.split_on_char ' ' line) in
          match toks with
          | [] -> ()
-         | c :: args when !tainted && c <> "cfg" -> emit "*"
+         | "model:" :: (c :: args) ->
+           (* replay of the history that produced a corpus directory: executed by the model only *)
+           (match List.assoc_opt c !handlers with
+            | Some h -> let n0 = Buffer.length out and s0 = Buffer.length spec_out in
+              (try h args with _ -> ());
+              Buffer.truncate out n0; Buffer.truncate spec_out s0; emit "model"
+            | None -> emit "model")
+         | c :: args when !tainted && c <> "cfg" && c <> "tool" && c <> "flip" && c <> "trunc" -> emit "*"
          | c :: args ->
            if c = "flip" || c = "patch" || c = "trunc" then tainted := true;
            (match List.assoc_opt c !handlers with
@@ -412,7 +473,7 @@ let main () =
   let n = Array.length Sys.argv in
   let i = ref 1 in
   while !i + 1 < n do
-    tainted := false; pending_evs := []; Hashtbl.reset probes; Hashtbl.reset blooms; Hashtbl.reset raws; st := init_storage; st_k := 4; st_lazy := false; st_validate := false;
+    tainted := false; Hashtbl.reset images; Hashtbl.reset outs; pending_evs := []; Hashtbl.reset probes; Hashtbl.reset blooms; Hashtbl.reset raws; st := init_storage; st_k := 4; st_lazy := false; st_validate := false;
     st_cfg := { c_dup = true; c_maxrec = n_of_int 1000000; c_maxsize = n_of_int 1000000000 };
     run_script Sys.argv.(!i) Sys.argv.(!i + 1);
     i := !i + 2
